@@ -1,4 +1,5 @@
 import I18n.Generated.GettextPf
+import I18n.Model.ChkPluralsGen
 import I18n.Model.CheckPlurals
 import I18n.Generated.PluralForms
 import I18n.Driver.Util
@@ -34,7 +35,7 @@ partial def parseMsgs : Nat → List String → List MsgFacts
 
 def handle (op : String) (args : List String) : String :=
   match op, args with
-  | "run", tmpl :: npf :: rest =>
+  | "run", tmpl :: npf :: rest | "grun", tmpl :: npf :: rest =>
     let (pfs, rest) := takeN npf.toNat! rest
     let (correct, esc, rest) : Option (List (List Char)) × List (List Char) × List String :=
       match rest with
@@ -47,7 +48,8 @@ def handle (op : String) (args : List String) : String :=
     match rest with
     | nm :: r =>
       let inp : Input := ⟨pfs.map Driver.unhexChars, correct, esc, parseMsgs nm.toNat! r, tmpl == "1"⟩
-      match checkPlurals inp with
+      -- `grun`: everything after the parse of the header value REGENERATED from lib/check/__init__.py (Generated.ChkPlurals, chkplurals2lean.py)
+      match (if op == "grun" then I18n.CheckPlurals.GenChk.checkPlurals inp else checkPlurals inp) with
       | .error ex => s!"err {ex.name}"
       | .ok out => "ok " ++ ";".intercalate (out.tags.map showTag) ++ " | " ++ showPre out.preimage
     | [] => "bad-op"
